@@ -25,7 +25,7 @@ type Op struct {
 }
 
 type Case struct {
-	Mode     string `json:"mode"` // "calls", "volume", "tag", "mix", "burst" (mix_test.go)
+	Mode     string `json:"mode"` // "calls", "volume", "tag", "mix", "burst" (mix_test.go), "lag" (lag_test.go)
 	Dotu     bool   `json:"dotu"`
 	Msize    uint32 `json:"msize"`
 	Callers  [][]Op `json:"callers"`
@@ -44,7 +44,11 @@ type Case struct {
 	Rounds   int    `json:"rounds,omitempty"`   // mode burst: simultaneous calls per caller
 	Reps     int    `json:"reps,omitempty"`     // mode burst: number of fresh clients
 	ReTag    bool   `json:"retag,omitempty"`    // mode burst: every Tag is freed (TagFree) after a round and allocated again at the next gate
-	Free     int    `json:"free,omitempty"`     // mode mix / burst: quarters (0..4) of the Tag completions the consumer hands back with Tag.ReqFree (which ones: function of Seed)
+	Free     int    `json:"free,omitempty"`     // mode mix / burst / lag: quarters (0..4) of the Tag completions the consumer hands back with Tag.ReqFree (which ones: function of Seed)
+	Caps     []int  `json:"caps,omitempty"`     // mode mix / lag: capacity of the channel handed to TagAlloc, per source (missing: the customary 16)
+	Groups   []int  `json:"groups,omitempty"`   // mode lag: sizes of the successive groups of requests issued on the Tag (Sources[0]); the peer answers a group completely before the next is issued
+	RpcAt    []int  `json:"rpcat,omitempty"`    // mode lag: ordinary caller Sources[1+i] makes its k-th call together with group RpcAt[i]+k (if its previous call has returned)
+	Collect  int    `json:"collect,omitempty"`  // mode lag: the consumer of the Tag collects nothing until group Collect has been answered
 }
 
 const deadline = 20 * time.Second
@@ -151,7 +155,7 @@ func run(c *Case) error {
 	if err != nil {
 		return fmt.Errorf("Connect: %v", err)
 	}
-	defer clnt.Unmount()
+	defer unmount(clnt)
 	if clnt.Dotu != c.Dotu {
 		return fmt.Errorf("Connect: dialect %v, want %v", clnt.Dotu, c.Dotu)
 	}
@@ -165,6 +169,9 @@ func run(c *Case) error {
 	}
 	if c.Mode == "mix" {
 		return runMix(c, p, clnt, free0)
+	}
+	if c.Mode == "lag" {
+		return runLag(c, p, clnt, free0)
 	}
 	// ---- peer goroutine
 	peerDone := make(chan struct{})
@@ -468,6 +475,18 @@ func run(c *Case) error {
 	return nil
 }
 
+// unmount closes the client; when something inside the client is stuck with
+// the client's lock held, Unmount cannot return: the case's verdict (a hang
+// with its culprits) must still be reported.
+func unmount(clnt *go9p.Clnt) {
+	done := make(chan struct{})
+	go func() { clnt.Unmount(); close(done) }()
+	select {
+	case <-done:
+	case <-time.After(2 * time.Second):
+	}
+}
+
 func root0(f *go9p.Fid) uint32 {
 	if f == nil {
 		return 0
@@ -608,6 +627,15 @@ func execute(test string, c *Case) error {
 			}
 		}
 		hx.Label(fmt.Sprintf("mix tags=%d callers=%d lag=%v", nt, len(c.Sources)-nt, c.Lag))
+		mincap := 16
+		for i, s := range c.Sources {
+			if s.Tag && capOf(c, i) < mincap {
+				mincap = capOf(c, i)
+			}
+		}
+		hx.Label(fmt.Sprintf("mix smallest channel handed to TagAlloc=%d lag=%v", mincap, c.Lag))
+	case "lag":
+		hx.Label(fmt.Sprintf("lag chancap=%d", capOf(c, 0)))
 	case "burst":
 		hx.Label(fmt.Sprintf("burst callers=%s tags=%d rounds=%d", bucket(len(c.Callers)), c.NTags, c.Rounds))
 	default:
@@ -615,16 +643,16 @@ func execute(test string, c *Case) error {
 	}
 	hx.Sample(test, c)
 	err := run(c)
-	msg, waiting, isHang := "", 0, false
+	msg, waiting, lagging, isHang := "", 0, false, false
 	switch h := err.(type) {
 	case hangErr:
 		msg, isHang = string(h), true
 	case hang:
-		msg, waiting, isHang = h.msg, h.waiting, true
+		msg, waiting, lagging, isHang = h.msg, h.waiting, h.lagging, true
 	}
 	if isHang {
 		// (idle Tag processors and callers the case leaves unanswered on purpose are not culprits)
-		if blocked := culprits(hx.BlockedInGo9p(), waiting); blocked != "" {
+		if blocked := culprits(hx.BlockedInGo9p(), waiting, lagging); blocked != "" {
 			return fmt.Errorf("%s; goroutines blocked inside go9p:\n%s", msg, blocked)
 		}
 		hx.Inconclusive(msg)
